@@ -608,6 +608,13 @@ Fixpoint sem (n : nat) (g : G) (ctx : env) (p : nat) (a : reg) {struct n} : opti
   | Pratt atom ops => pratt_sem run n' atom ops ctx 0 p a
   | GroupArr gs => group_sem run gs ctx p a [] []
   | NestedIn _ => None                          (* not part of this specification: see Model/Nested.v *)
+  | ExtWrap x =>
+      (* an extension parser hands its failure back as a value: the pending error is re-recorded at the parser's start *)
+      match run x ctx p a with
+      | Some (None, Some (_, e)) => Some (None, ee None p e)
+      | Some (None, None) => None
+      | res => res
+      end
   end
   end.
 
